@@ -16,8 +16,10 @@ From Verif Require Import Lib.Base Lib.Dec Lib.PyStr Gen.PyChars
 
 (** * Literals written by the harness *)
 
+Inductive flit := FL (c n r : string).                             (* comment, name, rest *)
+
 Inductive ilit :=
-| IP (dup : bool) (fs : list (string * string * string))     (* paragraph: class, (comment, name, rest) *)
+| IP (dup : bool) (fs : list flit)                           (* paragraph: class, (comment, name, rest) *)
 | IO (k : okind) (t : string).
 
 Inductive klit := KS (n : string) | KI (n : string) (i : Z).
@@ -34,11 +36,17 @@ Inductive oplit :=
 | LInsert (i : Z) (kvs : list (string * string))
 | LReappend (j : nat).
 
+(** flat constructors instead of nested pairs: the literals elaborate faster *)
+Inductive qlit := Q (n : string) (i : Z) (a : result nat).        (* (name, i) -> position | exception *)
+Inductive plit := PQ (j : nat) (qs : list qlit).                   (* paragraph j: its queries *)
+Inductive ntlit := NT (n t : string).                              (* field name, field text *)
 Record steplit := mkS {
   s_err : option err;                                      (* the call raised *)
   s_dump : list string;                                    (* dump(), as its physical lines *)
-  s_reparse : option (list (list (string * string)));      (* fresh parse of the dump: (name, text) of every field *)
-  s_pos : list (list (string * Z * result nat))            (* live object, per paragraph: (name, i) -> position *)
+  s_reparse : option (list (list ntlit));                  (* fresh parse of the dump: (name, text) of every field *)
+  s_pos : list plit                                        (* live object, for the listed paragraphs (the one operated on;
+                                                              all of them after append/insert and at the end):
+                                                              (name, i) -> position among iter_parts() *)
 }.
 
 Inductive case :=
@@ -46,8 +54,8 @@ Inductive case :=
 
 (** * Decoding *)
 
-Definition dec_field (t : string * string * string) : field :=
-  let '(c, n, r) := t in mkF (dec c) (dec n) (dec r).
+Definition dec_field (t : flit) : field :=
+  match t with FL c n r => mkF (dec c) (dec n) (dec r) end.
 
 Definition dec_item (i : ilit) : item :=
   match i with
@@ -97,9 +105,16 @@ Fixpoint forall2b {A B} (f : A -> B -> bool) (l1 : list A) (l2 : list B) : bool 
   | _, _ => false
   end.
 
-Definition pos_agree (p : para) (qs : list (string * Z * result nat)) : bool :=
-  forallb (fun q => let '(n, i, ans) := q in
-                    result_eqb Nat.eqb (p_position p (dec n) i) ans) qs.
+Definition pos_agree (ps : list para) (jq : plit) : bool :=
+  match jq with
+  | PQ j qs =>
+      match nth_error ps j with
+      | Some p => forallb (fun q => match q with
+                                    | Q n i ans => result_eqb Nat.eqb (p_position p (dec n) i) ans
+                                    end) qs
+      | None => false
+      end
+  end.
 
 Fixpoint agree_steps (d : doc) (ops : list sop) (steps : list steplit) : bool :=
   match ops, steps with
@@ -108,7 +123,7 @@ Fixpoint agree_steps (d : doc) (ops : list sop) (steps : list steplit) : bool :=
       let (e, d') := s_step d o in
       option_eqb err_eqb e (s_err st)
       && str_eqb (dump d') (dec_text (s_dump st))
-      && forall2b pos_agree (paras d') (s_pos st)
+      && forallb (pos_agree (paras d')) (s_pos st)
       && agree_steps d' ops' steps'
   | _, _ => false
   end.
@@ -134,29 +149,37 @@ Record sobs := mkO {
   o_failed : bool;
   o_dump : str;
   o_reparse : option (list (list (str * str)));
-  o_pos : list (list (str * Z * option nat))
+  o_pos : list (nat * list (str * Z * option nat))
 }.
 
 Definition dec_obs (st : steplit) : sobs :=
   mkO (match s_err st with Some _ => true | None => false end)
       (dec_text (s_dump st))
-      (option_map (map (map (fun nt => (dec (fst nt), dec (snd nt))))) (s_reparse st))
-      (map (map (fun q => let '(n, i, ans) := q in
-                          (dec n, i, match ans with Ok x => Some x | Err _ => None end)))
+      (option_map (map (map (fun nt => match nt with NT n t => (dec n, dec t) end))) (s_reparse st))
+      (map (fun jq => match jq with
+                      | PQ j qs =>
+                          (j, map (fun q => match q with
+                                            | Q n i ans =>
+                                                (dec n, i, match ans with Ok x => Some x | Err _ => None end)
+                                            end) qs)
+                      end)
            (s_pos st)).
 
 Definition read_eqb : list (list (str * str)) -> list (list (str * str)) -> bool :=
   list_eqb (list_eqb (pair_eqb str_eqb str_eqb)).
 
-Definition positions_ok (fs : list field) (qs : list (str * Z * option nat)) : bool :=
-  forallb (fun q => let '(n, i, ans) := q in position_ok fs n i ans) qs.
+Definition positions_ok (ps : list (list field)) (jq : nat * list (str * Z * option nat)) : bool :=
+  match nth_error ps (fst jq) with
+  | Some fs => forallb (fun q => let '(n, i, ans) := q in position_ok fs n i ans) (snd jq)
+  | None => false
+  end.
 
 (** the observation is explained by the list state [s] *)
 Definition matches (s : sdoc) (ob : sobs) : bool :=
   str_eqb (sdump s) (o_dump ob)
   && sep_ok s
   && match o_reparse ob with Some r => read_eqb r (sread s) | None => false end
-  && forall2b positions_ok (sparas s) (o_pos ob).
+  && forallb (positions_ok (sparas s)) (o_pos ob).
 
 Definition first_match (cands : list (bool * sdoc)) (ob : sobs) : option sdoc :=
   match List.find (fun c => Bool.eqb (fst c) (o_failed ob) && matches (snd c) ob) cands with
